@@ -473,6 +473,9 @@ def oracle_c15(case, res, guard=True):
     # hypothesis OutWithFeeConsistent (as for C07): an exchange-supplied crypto_out_with_fee that differs from amount + fee makes lots
     # (which use it) and balances (which use amount + fee) disagree by construction of the input
     if guard and not all(P.HYPS["OutWithFeeConsistent"]({"rows": rows}) for rows in case["assets"].values()): return None
+    # hypothesis FeeFiatVisible (finding F12, as for C07): a transfer fee worth less than 5e-14 in fiat is not disposed of, so the lots keep a
+    # unit the balances no longer hold — "acquired − realized" then exceeds what any account holds (found by the thorough tier)
+    if guard and not all(P.HYPS["FeeFiatVisible"]({"rows": rows}) for rows in case["assets"].values()): return None
     if res["status"].startswith(("gen-error", "crash")) and case["which"] in WHICH["C15"]: return f"the open-positions report could not be generated ({res['status']}): nothing is listed"
     if res["status"] != "ok" or case["which"] != "open": return None
     rowsOA = [r for r in res["rows"] if r[0] == "OA"]
